@@ -3,7 +3,7 @@ CONSTANTS
   NL = 4
   NTAIL = 3
   NR = 2
-  NS = 2
+  NS = 4
   NC = 2
   NTMP = 4
 CONSTRAINT Progress
